@@ -90,6 +90,11 @@ func c17Enumerate(tier string, yield func(any)) {
 		for _, kf := range []string{"P-256-0", "RSA-2048-0", "brainpoolP384r1-0"} {
 			for _, over := range []bool{false, true} {
 				yield(&c17Case{Kind: "put", Blocks: blocks, KeyFix: kf, Hash: over})
+				if blocks == "k" && kf == "P-256-0" {
+					for np := range c17NamePairs {
+						yield(&c17Case{Kind: "putnames", Prefix: np, Hash: over})
+					}
+				}
 			}
 		}
 	}
@@ -214,7 +219,86 @@ func c17Exec(x *engine.Ctx, cc any) {
 		c17Reject(x, c)
 	case "put":
 		c17Put(x, c)
+	case "putnames":
+		c17PutNames(x, c)
 	}
+}
+
+// configuration file names with more than one dot: two entities whose names share their first part
+var c17NamePairs = [][2]string{{"ca.root.yaml", "ca.issuing.yaml"}, {"pki.v1/root.yaml", "pki.v1/sub.yaml"}, {"a.b.c.yaml", "a.b.d.yml"}, {"x.yaml", "x.y.yaml"}, {"dir/x.y/z.json", "dir/x.q/z.json"}, {"plain.yaml", "other.yaml"}}
+
+// c17PutNames: two keys written through the database for two entities whose file names contain dots; each is read
+// back as itself through a database opened afresh, from the file next to its own configuration.
+func c17PutNames(x *engine.Ctx, c *c17Case) {
+	pair := c17NamePairs[c.Prefix]
+	fixes := []string{"P-256-0", "RSA-1024-0"}
+	if c.Hash {
+		fixes = []string{"RSA-1024-0", "P-256-0"}
+	}
+	w := simfs.New(simfs.TickPerWrite)
+	aliases := make([]string, 2)
+	for i, p := range pair {
+		aliases[i] = fmt.Sprintf("name-%d", i)
+		w.Put(p, []byte(fmt.Sprintf("version: 1\nalias: %s\nsubject: CN=file test %d\n", aliases[i], i)))
+	}
+	x.Nontrivial(fmt.Sprintf("putnames %d %v", c.Prefix, c.Hash))
+	feat := fmt.Sprintf("names=%s+%s", pair[0], pair[1])
+	fsdb := filesystem.NewFilesystemDatabase(w)
+	if err := fsdb.Open(); err != nil {
+		x.Violation("C17/putnames/open-error "+feat, err.Error())
+		return
+	}
+	w.BeginRun(nil)
+	var keys [2]*refx509.PrivateKey
+	for i := range pair {
+		pf, err := cert.ReadPem(FixtureKeyPEM(fixes[i]))
+		if err != nil || pf.PrivateKey == nil {
+			x.Cap("fixture key unreadable")
+			return
+		}
+		keys[i], _ = refx509.ParsePKCS8(FixtureKeyDER(fixes[i]))
+		if err := fsdb.PutBuildArtifact(aliases[i], db.BuildArtifact{PrivateKey: pf.PrivateKey}); err != nil {
+			x.Violation("C17/putnames/error "+feat, err.Error())
+			return
+		}
+	}
+	fsdb.Close()
+	for i, p := range pair {
+		a := ReadArtifact(w, p)
+		if a.Key == nil || a.Key.Ident() != keys[i].Ident() {
+			got := "no key"
+			if a.Key != nil {
+				got = a.Key.Describe()
+			}
+			x.Violation("C17/putnames/file-next-to-the-configuration "+feat, fmt.Sprintf("the key written for %s (%s) is not in %s (found: %s, file exists=%v); files: %v", p, keys[i].Describe(), ArtifactPath(p), got, a.Exists, w.Paths()))
+			return
+		}
+	}
+	again := filesystem.NewFilesystemDatabase(w)
+	if err := again.Open(); err != nil {
+		x.Violation("C17/putnames/reopen-error "+feat, err.Error())
+		return
+	}
+	defer again.Close()
+	for i := range pair {
+		a, err := again.GetBuildArtifact(aliases[i])
+		if err != nil || a == nil || a.PrivateKey == nil {
+			x.Violation("C17/putnames/key-not-read-back "+feat, fmt.Sprintf("%s: %v", pair[i], err))
+			return
+		}
+		var buf bytes.Buffer
+		if err := cert.WritePrivateKeyToPem(a.PrivateKey, &buf); err != nil {
+			x.Violation("C17/putnames/unwritable "+feat, err.Error())
+			return
+		}
+		back := refx509.SplitPem(buf.Bytes())
+		k, err := refx509.ParsePKCS8(back.KeyDER)
+		if err != nil || k.Ident() != keys[i].Ident() {
+			x.Violation("C17/putnames/another-key-read-back "+feat, fmt.Sprintf("%s: wrote %s, a database opened afterwards returns another key (%v)", pair[i], keys[i].Describe(), err))
+			return
+		}
+	}
+	x.Outcome("dotted names round trip")
 }
 
 // c17Put: the write side of the artifact file through the database interface: an artifact holding any subset of
@@ -846,7 +930,7 @@ func init() {
 	register(&engine.Check{
 		ID:          "C17",
 		Level:       "exploration",
-		Rule:        "10 curves x boundary scalars (1,2,3,n-1,n-2,n/2, the largest and smallest value of every octet length 1..len-1, i.e. every number of leading zero octets, 8 mid-range; 70..150 per curve) through cert.WritePrivateKeyToPem -> cert.ReadPem, the reference PKCS#8 decoder, crypto/x509 in both directions (NIST) , 8 reference-built PKCS#8 layouts (curve OID outer / inner / both, with and without embedded public key, compressed public point) and the minimal-length (leading zeros stripped) and zero-padded (1, 2, 3, 8 extra octets) encodings; 10 RSA fixture keys 1024..4096; artifact files for all 16 block orders over {cert,key,request} x hash line x 4 key types through cert.ReadPem, and the 15 non-empty orders as an entity's artifact read by opening the directory with the hash line first / after the first block / last and with a blank line at the end, the same with RSA-4096 and RSA-8192 keys (files of 4 to 8 KB), and 11 orders with a damaged key block among valid blocks (must be reported); 6 pairs of artifact contents written over one another (long, short, long, short) through gopki's native filesystem and read back; rejection inputs: scalar 0, n, n+1, 2^(8len)-1, unknown/missing curve, ECPrivateKey version 0/2, swapped RSA/EC bodies, unknown algorithm, every strict prefix of a valid EC key per curve and of an RSA key, PEM around non-DER, and SEC1 / PKCS#1 / encrypted key blocks (an error or the key, never silently nothing). non-trivial = distinct case that reached a comparison; the write side through the database interface: every non-empty subset of {certificate, key, request} put for 3 key types, into an empty place and over an older file, and read back by a database opened afresh on the same files",
+		Rule:        "10 curves x boundary scalars (1,2,3,n-1,n-2,n/2, the largest and smallest value of every octet length 1..len-1, i.e. every number of leading zero octets, 8 mid-range; 70..150 per curve) through cert.WritePrivateKeyToPem -> cert.ReadPem, the reference PKCS#8 decoder, crypto/x509 in both directions (NIST) , 8 reference-built PKCS#8 layouts (curve OID outer / inner / both, with and without embedded public key, compressed public point) and the minimal-length (leading zeros stripped) and zero-padded (1, 2, 3, 8 extra octets) encodings; 10 RSA fixture keys 1024..4096; artifact files for all 16 block orders over {cert,key,request} x hash line x 4 key types through cert.ReadPem, and the 15 non-empty orders as an entity's artifact read by opening the directory with the hash line first / after the first block / last and with a blank line at the end, the same with RSA-4096 and RSA-8192 keys (files of 4 to 8 KB), and 11 orders with a damaged key block among valid blocks (must be reported); 6 pairs of artifact contents written over one another (long, short, long, short) through gopki's native filesystem and read back; rejection inputs: scalar 0, n, n+1, 2^(8len)-1, unknown/missing curve, ECPrivateKey version 0/2, swapped RSA/EC bodies, unknown algorithm, every strict prefix of a valid EC key per curve and of an RSA key, PEM around non-DER, and SEC1 / PKCS#1 / encrypted key blocks (an error or the key, never silently nothing). non-trivial = distinct case that reached a comparison; the write side through the database interface: every non-empty subset of {certificate, key, request} put for 3 key types, into an empty place and over an older file, and read back by a database opened afresh on the same files; two keys of different kinds put through the database for two entities whose file names contain several dots and share their first part (6 name pairs x both assignments): each key stands in the file next to its own configuration and is read back as itself by a database opened afresh",
 		Bound:       map[string]string{"scalars": "boundary values only (any valid scalar is unbounded)", "rsa": "fixture keys 1024,1536,2048,3072,4096 (two each)"},
 		Assumptions: []string{"outer PKCS#8 version and trailing bytes after a complete DER value are not in the rejection alphabet (neither gopki nor the standard library rejects them)", "crypto/x509 is the 'standard library parser' of the statement"},
 		Budget:      budgets(quickBudget, thoroughBudget),
